@@ -63,6 +63,7 @@ Section LoopFacts.
     - apply upsert_cong. exact keq_spec. exact H.
     - apply remove_key_cong. exact keq_spec. exact H.
     - apply Permutation_app_tail. exact H.
+    - rewrite (H k). apply upsert_cong. exact keq_spec. exact H.
     - apply upsert_cong. exact keq_spec. exact H.
   Qed.
 
@@ -113,30 +114,46 @@ Section LoopFacts.
   (* two accepted statements, executed for two different keys, commute on the cell they share *)
   Lemma cell_comm : forall (s1 s2 : stmt) k1 v1 k2 v2 c,
     stmt_safe K V I s1 = true -> stmt_safe K V I s2 = true ->
-    (forall d1 q1 x1 d2 q2 x2, s1 = SFlagSet d1 q1 x1 -> s2 = SFlagSet d2 q2 x2 -> x1 = x2) ->
+    stmt_dst K V I s1 = stmt_dst K V I s2 -> flags_agree K V I keq ieq s1 s2 = true ->
     k1 <> k2 ->
     cell_equiv (apply_stmt K V I keq s2 k2 v2 (apply_stmt K V I keq s1 k1 v1 c))
                (apply_stmt K V I keq s1 k1 v1 (apply_stmt K V I keq s2 k2 v2 c)).
   Proof.
-    intros s1 s2 k1 v1 k2 v2 c H1 H2 Hflag Hne.
-    destruct s1; try discriminate; destruct s2; try discriminate; destruct c; simpl;
-      repeat match goal with |- context [if ?b then _ else _] => destruct b end; simpl; try reflexivity.
+    intros s1 s2 k1 v1 k2 v2 c H1 H2 Hd Hagree Hne.
+    assert (Hne' : k2 <> k1) by (intro E; apply Hne; symmetry; exact E).
+    destruct s1; try discriminate; destruct s2; try discriminate; simpl in Hd; subst;
+      simpl in Hagree; rewrite ?Nat.eqb_refl in Hagree; simpl in Hagree; try discriminate;
+      destruct c; simpl;
+      repeat match goal with |- context [if ?b then _ else _] => destruct b eqn:? end; simpl; try reflexivity;
+      repeat match goal with
+             | H : keq _ _ = true |- _ => apply keq_spec in H
+             end; subst; try contradiction.
     - (* write, write *) apply upsert_comm. exact keq_spec. exact Hne.
     - (* write, delete *) apply upsert_remove_comm. exact keq_spec. exact Hne.
-    - (* delete, write *) symmetry. apply upsert_remove_comm. exact keq_spec. intro E. apply Hne. symmetry. exact E.
+    - (* write, update *)
+      rewrite (lookup_upsert keq keq_spec), (keq_neq keq keq_spec k2 k1 Hne'). apply upsert_comm. exact keq_spec. exact Hne.
+    - (* delete, write *) symmetry. apply upsert_remove_comm. exact keq_spec. exact Hne'.
     - (* delete, delete *) apply remove_remove_comm. exact keq_spec.
+    - (* delete, update *)
+      rewrite (lookup_remove_key keq keq_spec), (keq_neq keq keq_spec k2 k1 Hne'). symmetry. apply upsert_remove_comm. exact keq_spec. exact Hne'.
     - (* append, append *)
       rewrite <- !app_assoc. apply Permutation_app_head. apply perm_swap.
     - (* int, int *) lia.
     - (* or, or *) destruct b; destruct (g k1 v1); destruct (g0 k2 v2); reflexivity.
     - (* and, and *) destruct b; destruct (g k1 v1); destruct (g0 k2 v2); reflexivity.
-    - (* flag, flag *) f_equal. symmetry. eapply Hflag; reflexivity.
+    - (* flag, flag *) apply ieq_spec in Hagree. subst. reflexivity.
+    - (* update, write *)
+      rewrite (lookup_upsert keq keq_spec), (keq_neq keq keq_spec k1 k2 Hne). apply upsert_comm. exact keq_spec. exact Hne.
+    - (* update, delete *)
+      rewrite (lookup_remove_key keq keq_spec), (keq_neq keq keq_spec k1 k2 Hne). apply upsert_remove_comm. exact keq_spec. exact Hne.
+    - (* update, update *)
+      rewrite !(lookup_upsert keq keq_spec), (keq_neq keq keq_spec k2 k1 Hne'), (keq_neq keq keq_spec k1 k2 Hne).
+      apply upsert_comm. exact keq_spec. exact Hne.
   Qed.
 
   Definition stmts_compatible (s1 s2 : stmt) : Prop :=
     stmt_safe K V I s1 = true /\ stmt_safe K V I s2 = true /\
-    (stmt_dst K V I s1 = stmt_dst K V I s2 ->
-     forall d1 q1 x1 d2 q2 x2, s1 = SFlagSet d1 q1 x1 -> s2 = SFlagSet d2 q2 x2 -> x1 = x2).
+    (stmt_dst K V I s1 = stmt_dst K V I s2 -> flags_agree K V I keq ieq s1 s2 = true).
 
   Lemma exec_stmt_comm : forall (s1 s2 : stmt) k1 v1 k2 v2 st,
     stmts_compatible s1 s2 -> k1 <> k2 ->
@@ -174,19 +191,18 @@ Section LoopFacts.
   Qed.
 
   Lemma body_safe_compatible : forall (body : list stmt),
-    body_safe K V I ieq body = true -> forall s1 s2, In s1 body -> In s2 body -> stmts_compatible s1 s2.
+    body_safe K V I keq ieq body = true -> forall s1 s2, In s1 body -> In s2 body -> stmts_compatible s1 s2.
   Proof.
     intros body H s1 s2 H1 H2. unfold body_safe in H. apply andb_true_iff in H. destruct H as [Hs Hf].
     rewrite forallb_forall in Hs. rewrite forallb_forall in Hf.
     split. apply Hs; exact H1. split. apply Hs; exact H2.
-    intros Hd d1 q1 x1 d2 q2 x2 E1 E2. specialize (Hf s1 H1). rewrite forallb_forall in Hf. specialize (Hf s2 H2).
-    subst s1 s2. simpl in Hf, Hd. subst d2. rewrite Nat.eqb_refl in Hf. simpl in Hf. apply ieq_spec. exact Hf.
+    intros _. specialize (Hf s1 H1). rewrite forallb_forall in Hf. apply Hf. exact H2.
   Qed.
 
   (* THE LOOP-BODY THEOREM.  For every body of accepted statements, every initial state and every two visiting
      orders of the same map, the loop ends in equivalent states. *)
   Theorem safe_body_perm_invariant : forall (body : list stmt) (st : list cell) (l1 l2 : list (K * V)),
-    body_safe K V I ieq body = true ->
+    body_safe K V I keq ieq body = true ->
     NoDup (map fst l1) -> Permutation l1 l2 ->
     state_equiv (run_loop K V I keq body st l1) (run_loop K V I keq body st l2).
   Proof.
@@ -231,7 +247,7 @@ Definition demo_body : list (stmt N N N) :=
    SAccumInt 2 (fun _ v => Z.of_N v);
    SFlagSet 3 (fun _ v => N.eqb v 20) 1%N].
 
-Example demo_body_safe : body_safe N N N N.eqb demo_body = true.
+Example demo_body_safe : body_safe N N N N.eqb N.eqb demo_body = true.
 Proof. reflexivity. Qed.
 
 Example demo_body_orders :
@@ -273,7 +289,7 @@ Qed.
 (* ... an append to a slice that is not sorted afterwards (the theorem only gives a permutation) ... *)
 Theorem append_unsorted_refuted :
   exists (body : list (stmt N N N)) (l1 l2 : list (N * N)),
-    body_safe N N N N.eqb body = true /\ NoDup (map fst l1) /\ Permutation l1 l2 /\
+    body_safe N N N N.eqb N.eqb body = true /\ NoDup (map fst l1) /\ Permutation l1 l2 /\
     run_loop N N N N.eqb body [CList []] l1 <> run_loop N N N N.eqb body [CList []] l2.
 Proof.
   exists [SAppend 0 (fun _ _ => true) (fun k _ => k)], [(1, 10); (2, 20)]%N, [(2, 20); (1, 10)]%N.
@@ -302,8 +318,17 @@ Qed.
 (* the descriptor the translator computes for an accepted body is accepted by `effect_safe`, and the descriptor
    of a body containing a rejected statement is not *)
 Theorem safe_stmt_effect_safe : forall (K V I : Type) (s : stmt K V I),
-  stmt_safe K V I s = true -> effect_safe (effect_of_stmt K V I (fun _ => true) s) = true.
-Proof. intros K V I s H. destruct s; try discriminate; reflexivity. Qed.
+  stmt_safe K V I s = true -> (forall d c g, s <> SAssignAtKey d c g) ->
+  effect_safe (effect_of_stmt K V I (fun _ => true) s) = true.
+Proof.
+  intros K V I s H Hn. destruct s; try discriminate; try reflexivity. exfalso. eapply Hn. reflexivity.
+Qed.
+
+(* the key guard is invisible to the translator: such a loop looks like a last-writer-wins assignment and must be a
+   reviewed exception (reason RKeyGuardedAssign) *)
+Theorem key_guarded_assign_needs_exception : forall (K V I : Type) sorted d c (g : K -> V -> I),
+  effect_safe (effect_of_stmt K V I sorted (SAssignAtKey d c g)) = false.
+Proof. reflexivity. Qed.
 
 Theorem unsafe_stmt_effect_unsafe : forall (K V I : Type) sorted (s : stmt K V I),
   stmt_safe K V I s = false -> effect_safe (effect_of_stmt K V I sorted s) = false.
